@@ -42,6 +42,7 @@ const (
 	AWide                  // (r0,r1) = wide(acc, i64, f32, f64): multi-value, mixed types; acc = low32(r0) + r1
 	AFarStore              // page A (1..MaxPages-1), cell B := acc|1   (traps out of bounds unless the memory was grown that far)
 	AFarLoad               // acc += page A, cell B                      (same)
+	AHost2                 // (r0,r1) = host2(acc): a host function with more results than parameters; acc = r0 + r1
 )
 
 const (
@@ -79,7 +80,7 @@ type Atom struct {
 }
 
 func (a Atom) String() string {
-	n := []string{"store", "storeacc", "loadacc", "gadd", "call", "callimp", "calli", "host", "trap", "grow", "rec", "tableset", "exit", "meminit", "datadrop", "tableinit", "elemdrop", "tailcall", "stdout", "open", "close", "callgref", "atomicadd", "wide", "farstore", "farload"}[a.K]
+	n := []string{"store", "storeacc", "loadacc", "gadd", "call", "callimp", "calli", "host", "trap", "grow", "rec", "tableset", "exit", "meminit", "datadrop", "tableinit", "elemdrop", "tailcall", "stdout", "open", "close", "callgref", "atomicadd", "wide", "farstore", "farload", "host2"}[a.K]
 	return fmt.Sprintf("%s(%d,%d)", n, a.A, a.B)
 }
 
@@ -119,6 +120,7 @@ type Plan struct {
 	StartFn  int
 	StartArg int32
 	HasStart bool
+	Host2    bool // imports env.h2 (after the plan imports)
 }
 
 // Opts steer generation.
@@ -140,11 +142,12 @@ type Opts struct {
 	GRef               bool // funcref-global atom
 	Atomics            bool // atomic atoms and traps (needs the threads feature)
 	Wide               bool // the multi-value mixed-type function
+	Host2              bool // env.h2: (i32) -> (i32, i32), pure; the embedder must export it
 }
 
 // Generate draws a plan from the tape.
 func Generate(t *tape.Tape, o Opts) *Plan {
-	p := &Plan{NImports: o.NImports, ImportFrom: o.ImportFrom, TailCalls: o.TailCalls}
+	p := &Plan{NImports: o.NImports, ImportFrom: o.ImportFrom, TailCalls: o.TailCalls, Host2: o.Host2}
 	n := t.Range(o.MinFuncs, o.MaxFuncs)
 	p.RecLocals = [2]int{t.Choose(8), 8 + t.Choose(193)}
 	val := int32(100)
@@ -158,9 +161,12 @@ func Generate(t *tape.Tape, o Opts) *Plan {
 		for j := 0; j < na; j++ {
 			val++
 			// weights: store, storeacc, loadacc, gadd, call, callimp, calli, host, trap, grow, rec, tableset, exit, meminit, datadrop, tableinit, elemdrop, tailcall
-			w := []int{4, 3, 2, 3, 4, 0, 0, 0, 0, 0, 0, 0, 0, 0, 0, 0, 0, 0, 0, 0, 0, 0, 0, 0, 0, 0}
+			w := []int{4, 3, 2, 3, 4, 0, 0, 0, 0, 0, 0, 0, 0, 0, 0, 0, 0, 0, 0, 0, 0, 0, 0, 0, 0, 0, 0}
 			if o.Wide {
 				w[AWide] = 2
+			}
+			if o.Host2 {
+				w[AHost2] = 2
 			}
 			if o.WASI {
 				w[AStdout], w[AOpen], w[AClose] = 3, 2, 2
@@ -277,6 +283,7 @@ type Layout struct {
 	Host, ProcExit             uint32
 	FdWrite, PathOpen, FdClose uint32
 	Imp0                       uint32 // first imported plan function
+	Host2                      uint32 // env.h2, when the plan has it
 	F0                         uint32 // first plan function
 	Rec0                       uint32
 	Odd                        uint32
@@ -288,6 +295,10 @@ type Layout struct {
 func (p *Plan) Layout() Layout {
 	l := Layout{Host: 0, ProcExit: 1, FdWrite: 2, PathOpen: 3, FdClose: 4, Imp0: 5}
 	l.F0 = 5 + uint32(p.NImports)
+	if p.Host2 {
+		l.Host2 = l.F0
+		l.F0++
+	}
 	l.Rec0 = l.F0 + uint32(len(p.Funcs))
 	l.Odd = l.Rec0 + 2
 	l.Gleaf = l.Odd + 1
@@ -312,6 +323,9 @@ func (p *Plan) Encode() []byte {
 	m.ImportFunc("wasi_snapshot_preview1", "fd_close", i32, i32)
 	for i := 0; i < p.NImports; i++ {
 		m.ImportFunc(p.ImportFrom, fmt.Sprintf("f%d", i), i32, i32)
+	}
+	if p.Host2 {
+		m.ImportFunc("env", "h2", i32, []wasmb.ValType{w32, w32})
 	}
 	tGuest := m.AddType(i32, i32)
 	n := len(p.Funcs)
@@ -364,6 +378,8 @@ func (p *Plan) Encode() []byte {
 				}
 			case AGrow:
 				c.I32Const(a.A).MemoryGrow().Drop()
+			case AHost2:
+				c.LocalGet(1).Call(l.Host2).I32Add().LocalSet(1)
 			case AFarStore:
 				c.I32Const(FarAddr(a.A, a.B)).LocalGet(1).I32Const(1).I32Or().I32Store(0)
 			case AFarLoad:
